@@ -120,7 +120,7 @@ PROPS["C01"] = dict(
           "(FNV-1a over operation, outcome, returned values and the observable state of all three strings after every step)."),
     probes=["reached_len_N", "op_at_len_N", "iterator_insert_at_end", "iterator_replace_empty_range", "search_with_defaulted_position",
             "strlen_layout_op_with_stale_bytes", "N255_default_constructed", "stream_short_reads", "stream_early_eof_reached",
-            "stream_underflow_threw", "stream_sink_refused", "aliasing_op", "strlen_layout_resize_grow", "single_pass_input_range", "bad_position_under_C01", "random_access_range_that_is_not_contiguous", "own_terminator_as_source_character", "generated_range_of_more_than_2^32_elements"],
+            "stream_underflow_threw", "stream_sink_refused", "aliasing_op", "strlen_layout_resize_grow", "single_pass_input_range", "bad_position_under_C01", "random_access_range_that_is_not_contiguous", "own_terminator_as_source_character", "generated_range_of_more_than_2^32_elements", "aliasing_source_runs_on_into_the_callers_record"],
     components=_FS_COMPONENTS, assumptions=_FS_ASSUME,
 )
 PROPS["C02"] = dict(
